@@ -6,11 +6,12 @@ import stix2
 from stix2 import registry
 from stix2.exceptions import STIXError
 
-from engine.hlib import Native, Part, TIER, V, pick
+from engine.hlib import Native, Part, TIER, V, pick, pickb
 from props import gen
 
 PARTNO = Part.index
 NPARTS = 8
+QUICK = TIER == "quick"
 GOOD, _SK = gen.buildable()
 ALLOWED = (STIXError, ValueError, TypeError)
 
@@ -62,10 +63,46 @@ def symbolic_junk(slot: int, kind: int, i: int, s: str, allow: bool) -> bool:
     return True
 
 
+# ---- symbolic dictionary keys at the dictionary-typed slots (keys end up in error messages)
+KEY_SITES = [
+    lambda k: {"type": "file", "id": "file--311b2d2d-f010-4473-83ec-1edf84858f4c", "name": "f", "hashes": {k: "0" * 32}},
+    lambda k: {"type": "process", "id": "process--311b2d2d-f010-4473-83ec-1edf84858f4c", "pid": 1, "environment_variables": {k: "v"}},
+    lambda k: dict(IDENT, external_references=[{"source_name": "s", "hashes": {k: "0" * 32}}]),
+    lambda k: {"type": "email-message", "id": "email-message--311b2d2d-f010-4473-83ec-1edf84858f4c", "is_multipart": False, "additional_header_fields": {k: ["v"]}},
+    lambda k: dict(IDENT, x_dict={k: 1}),
+]
+NKS = len(KEY_SITES)
+
+
+def symbolic_keys(site: int, k: str, allow: bool) -> bool:
+    """
+    pre: 0 <= site < NKS and len(k) <= 4
+    post: _
+    """
+    d = KEY_SITES[pick(site, NKS)](k)
+    try:
+        stix2.parse(d, allow_custom=allow, version="2.1")
+    except ALLOWED as e:
+        try:
+            str(e)
+        except Exception:  # noqa: BLE001
+            V.reached()
+            return False
+        V.reached()
+        return True
+    except Exception:  # noqa: BLE001
+        V.reached()
+        return False
+    V.reached()
+    return True
+
+
 # ---- every class x every slot x concrete junk of every JSON kind, at top level and inside embedded objects / extensions
 JUNK = [None, 0, -1, 3.5, "", "x", True, [], [0], ["x"], {}, {"a": 1}, [{"a": "b"}], {"a": {"b": 1}}, [[1]], {"": ""}, [{"": ""}], [None], {"a": None},
         False, "toplevel-property-extension", {"extension_type": "toplevel-property-extension"}, {"x-a-ext": {"extension_type": "toplevel-property-extension"}},
-        {"extension-definition--311b2d2d-f010-4473-83ec-1edf84858f4c": 5}, {"extension-definition--311b2d2d-f010-4473-83ec-1edf84858f4c": {"extension_type": 7}}]
+        {"extension-definition--311b2d2d-f010-4473-83ec-1edf84858f4c": 5}, {"extension-definition--311b2d2d-f010-4473-83ec-1edf84858f4c": {"extension_type": 7}},
+        # text that is hostile to message formatting, as value and as dictionary key
+        "{x}", "%s %(a)s", {"{x}": "v"}, {"{0.x}": 1}, {"{1}": [1]}, {"%s": 1}, {"%(a)s": {"{": "}"}}, [{"{x}": "{y}"}], {"a{}b": ["{0}"]}, ["{0!r:>{1}}"]]
 NJ = len(JUNK)
 
 
@@ -137,7 +174,15 @@ def set_path(doc, path, value, delete=False):
 
 
 def reg_snapshot():
-    return {ver: {cat: dict(m) for cat, m in cats.items()} for ver, cats in registry.STIX2_OBJ_MAPS.items()}
+    """the registries, and for every registered class the property tables parsing relies on (names and property object identities)"""
+    out = {}
+    for ver, cats in registry.STIX2_OBJ_MAPS.items():
+        for cat, m in cats.items():
+            for name, cls in m.items():
+                tables = tuple(tuple((k, id(v)) for k, v in (getattr(cls, attr, None) or {}).items()) for attr in ("_properties", "_toplevel_properties")) \
+                    if isinstance(cls, type) else ()
+                out[(ver, cat, name)] = (cls, tables)
+    return out
 
 
 def table_junk(ci: int, allow: bool) -> bool:
@@ -189,6 +234,83 @@ def run_all_native():
                 if not run_table_case(ci, ji, allow):
                     bad.append((CASES[ci][:4], JUNK[ji] if ji < NJ else "<deleted>", allow))
     return bad
+
+
+# ---- objects carrying registered toplevel-property extensions: a failed construction must not rewrite the registered classes
+EXT_A = "extension-definition--aaaaaaaa-f010-4473-83ec-1edf84858f4c"
+EXT_B = "extension-definition--bbbbbbbb-f010-4473-83ec-1edf84858f4c"
+EXT_C = "extension-definition--cccccccc-f010-4473-83ec-1edf84858f4c"
+
+
+def _register_fixture():
+    from stix2 import properties as SP
+    if registry.class_for_type(EXT_A, "2.1", "extensions") is None:
+        @stix2.v21.CustomExtension(EXT_A, [("rank_a", SP.IntegerProperty(required=True))])
+        class ExtA:
+            extension_type = "toplevel-property-extension"
+
+        @stix2.v21.CustomExtension(EXT_B, [("rank_b", SP.IntegerProperty()), ("note_b", SP.StringProperty())])
+        class ExtB:
+            extension_type = "toplevel-property-extension"
+
+        @stix2.v21.CustomExtension(EXT_C, [("inner_c", SP.StringProperty(required=True))])
+        class ExtC:
+            extension_type = "property-extension"
+
+
+EXT_COMBOS = [(EXT_A,), (EXT_B,), (EXT_A, EXT_B), (EXT_B, EXT_A), (EXT_A, EXT_B, EXT_C), (EXT_C, EXT_B)]
+NEC = len(EXT_COMBOS)
+
+
+def ext_doc(combo):
+    d = dict(IDENT, extensions={})
+    for e in combo:
+        d["extensions"][e] = {"extension_type": "property-extension", "inner_c": "v"} if e == EXT_C else {"extension_type": "toplevel-property-extension"}
+        if e == EXT_A:
+            d["rank_a"] = 1
+        if e == EXT_B:
+            d["rank_b"] = 2
+    return d
+
+
+def toplevel_extension_registry(ci: int, slot: int, ji: int, allow: bool) -> bool:
+    """
+    pre: 0 <= ci < NEC and 0 <= slot < NSLOT + 3 and 0 <= ji <= NJ
+    pre: (not QUICK) or ji % 3 == slot % 3
+    post: _
+    """
+    ci, slot, ji, allow = pick(ci, NEC), pick(slot, NSLOT + 3), pick(ji, NJ + 1), pickb(allow)
+    with Native():
+        ok = run_ext_registry_case(ci, slot, ji, allow)
+    V.reached()
+    return ok
+
+
+def run_ext_registry_case(ci, slot, ji, allow):
+    _register_fixture()
+    before = reg_snapshot()
+    base = ext_doc(EXT_COMBOS[ci])
+    path = (SLOTS + ["rank_a", "rank_b", "note_b"])[slot]
+    doc = set_path(base, path, None, delete=True) if ji == NJ else set_path(base, path, JUNK[ji])
+    try:
+        stix2.parse(doc, allow_custom=allow, version="2.1")
+    except ALLOWED:
+        pass
+    except Exception:  # noqa: BLE001
+        return False
+    if reg_snapshot() != before:
+        return False
+    # behaviour afterwards is that of a pristine registry: each extension alone still accepts exactly its own properties
+    for combo, extra, good in (((EXT_A,), {}, True), ((EXT_B,), {}, True), ((EXT_A,), {"rank_b": 2}, False), ((EXT_B,), {"rank_a": 1}, False)):
+        d = dict(ext_doc(combo), **extra)
+        try:
+            stix2.parse(d, allow_custom=False, version="2.1")
+            got = True
+        except ALLOWED:
+            got = False
+        if got != good:
+            return False
+    return True
 
 
 # ---- thorough: two simultaneous corruptions (the second from a fixed set of raw-scan-relevant sites)
